@@ -31,6 +31,12 @@ RULE += (
     'but other ids / slab order / particle hosts, visited in a random order, the first family visited again at the end and the same chunk of every family staged in turn; '
     'every object compared with ITS OWN files (hid[pinds]==phid, every column), never with an earlier object.'
 )
+RULE += (
+    ' Added after seeded round 11: AbacusHOD constructions that RAISE part-way through staging (the particle family the options ask for absent: want_ranks without _withranks files or the reverse; '
+    'the tracer set asking for the _MT / plain family that is absent; the halo or particle file of a LATER slab of the chunk missing or truncated, so that earlier slabs were already counted) '
+    'followed in the same process by a valid construction over the SAME directory / redshift / chunk (files put back), ids decreasing / interleaved / random across slabs; '
+    'the verdict comes only from the later valid object compared with its own files.'
+)
 ASSUMPTIONS = ['z_mock=0.5 (a "primary" redshift, particles loaded) for 9 of 11 cases; every 11th case a secondary redshift (0.575/0.45/1.625: halo files only) and every 11th one with particle files that hold no particle; at least one halo per staged chunk (the constructor takes min/max of the masses)']
 
 MPART = 2.0e9
@@ -440,6 +446,10 @@ def check(run):
             return
     # appended after all the single-directory cases (own random stream): objects over one directory, different file families
     check_file_families(run, AH)
+    if run.too_many():
+        return
+    # appended after those (own random stream): rejected constructions, then a valid one over the same directory
+    check_after_rejected(run, AH)
 
 
 class _LaterObjectRun:
@@ -447,8 +457,8 @@ class _LaterObjectRun:
     any discrepancy with the object's own files is reported under one mechanism, with the failed comparison and the earlier constructions
     in the witness (a mechanism already listed as known keeps its own name)."""
 
-    def __init__(self, run, earlier):
-        self._run, self._earlier = run, earlier
+    def __init__(self, run, earlier, mechanism='staging-differs-from-own-files-after-earlier-object-on-same-directory', witness_key='earlier_objects_on_this_directory'):
+        self._run, self._earlier, self._mechanism, self._witness_key = run, earlier, mechanism, witness_key
 
     def __getattr__(self, name):
         return getattr(self._run, name)
@@ -456,7 +466,7 @@ class _LaterObjectRun:
     def violation(self, key, witness):
         if key in self._run.known.get(self._run.pid, {}) or key == 'staging-earlier-object-changed':
             return self._run.violation(key, witness)
-        return self._run.violation('staging-differs-from-own-files-after-earlier-object-on-same-directory', dict(failed_comparison=key, earlier_objects_on_this_directory=list(self._earlier), **witness))
+        return self._run.violation(self._mechanism, dict(failed_comparison=key, **{self._witness_key: list(self._earlier)}, **witness))
 
 
 def _composition(rng, total, parts):
@@ -558,6 +568,127 @@ def check_file_families(run, AH):
         finally:
             if root:
                 shutil.rmtree(root, ignore_errors=True)
+
+
+def _slab_files(t, slab):
+    sub = os.path.join(t['subsample_dir'], t['sim'], 'z%4.3f' % t.get('z', 0.5))
+    tag = '_MT' if t['mt'] else ''
+    return (
+        os.path.join(sub, f'halos_xcom_{slab}_seed600_abacushod_oldfenv{tag}_new.h5'),
+        os.path.join(sub, f'particles_xcom_{slab}_seed600_abacushod_oldfenv{tag}' + ('_withranks' if t['ranks'] else '') + '_new.h5'),
+    )
+
+
+def _rejected_construction(run, AH, t, kind, slab, flags, tracers, force_mt, chunk, nch):
+    """One AbacusHOD(...) call that the package legitimately rejects (it raises on the unchanged tree as well).  Files moved aside for
+    it are put back before returning.  Nothing about this call is a verdict: it is only counted."""
+    flags = dict(flags)
+    aside = None
+    hf, pf = _slab_files(t, slab)
+    assert os.path.exists(hf) and os.path.exists(pf)
+    if kind == 'particle_family_absent':
+        flags['want_ranks'] = not t['ranks']  # asks for the _withranks particle files while only the plain ones exist, or the reverse
+    elif kind == 'tracer_family_absent':
+        tracers, force_mt = (('LRG',), False) if t['mt'] else (('LRG', 'ELG'), False)  # asks for the plain / _MT family that is not there
+    else:
+        aside = hf if 'halo' in kind else pf
+        os.rename(aside, aside + '.aside')
+        if kind.endswith('truncated'):
+            with open(aside + '.aside', 'rb') as f, open(aside, 'wb') as g:
+                g.write(f.read(700))
+    sim_params = dict(sim_name=t['sim'], sim_dir=t['sim_dir'], subsample_dir=t['subsample_dir'], z_mock=t.get('z', 0.5), output_dir=t['out'])
+    if force_mt:
+        sim_params['force_mt'] = True
+    HOD = dict(tracer_flags={x: (x in tracers) for x in ('LRG', 'ELG', 'QSO')}, want_rsd=True, LRG_params={}, ELG_params={}, QSO_params={}, **flags)
+    run.ev()
+    raised = None
+    try:
+        with warnings.catch_warnings():
+            warnings.simplefilter('ignore')
+            logging.disable(logging.CRITICAL)
+            try:
+                with stub_histogram(AH):
+                    AH.AbacusHOD(sim_params, HOD, chunk=chunk, n_chunks=nch)
+            except Exception as e:  # the rejection itself (FileNotFoundError / OSError from the file open on the unchanged tree)
+                raised = type(e).__name__
+            finally:
+                logging.disable(logging.NOTSET)
+    finally:
+        if aside is not None:
+            if os.path.exists(aside):
+                os.remove(aside)
+            os.rename(aside + '.aside', aside)
+    assert os.path.exists(hf) and os.path.exists(pf)
+    if raised is None:
+        run.count('rejected_calls_that_did_not_raise')  # not stated by the property: only counted
+    else:
+        run.count('rejected_calls_before_valid_ones')
+        run.count('rejected_calls_raising_' + raised)
+    return dict(kind=kind, slab=slab, raised=raised, want_ranks=flags['want_ranks'], tracers=list(tracers), force_mt=force_mt, chunk=chunk, n_chunks=nch)
+
+
+def check_after_rejected(run, AH):
+    """State left behind by a FAILED construction: one or two AbacusHOD(...) calls that raise part-way through staging, then a valid
+    call over the same directory / redshift / chunk.  The valid object is compared with its own files (the same oracle as everywhere else
+    in this module); the failed calls are only counted."""
+    rng = run.rng(2)
+    ngroup = 10 if run.quick else 80
+    case = 200001  # odd case numbers: the histogram stub is always in place
+    orders = ['decreasing_slabs', 'interleaved', 'decreasing', 'random', 'decreasing_slabs', 'interleaved', 'increasing']
+    for g in range(ngroup):
+        order = orders[g % len(orders)]
+        nslab = int(rng.integers(2, 7))
+        if order == 'decreasing_slabs':
+            hps = [int(rng.integers(1, 20))] * nslab
+        else:
+            hps = [int(rng.integers(1, 30)) for _ in range(nslab)]
+        mt, ranks = bool(rng.integers(0, 2)), bool(rng.integers(0, 2))
+        _IDBASE[0] = 0
+        t = make_dir(rng, nslab, order, ranks, mt, hps)
+        t.update(mt=mt, ranks=ranks)
+        try:
+            chunkings = [(-1, 1)]
+            if nslab >= 4:
+                chunkings.append((int(rng.integers(0, 2)), 2))
+            if g % 2:
+                chunkings.reverse()
+            for chunk, nch in chunkings:
+                n_jump = int(np.ceil(nslab / nch))
+                c = 0 if chunk == -1 else chunk
+                start, end = c * n_jump, min(nslab, (c + 1) * n_jump)
+                if end - start < 1:
+                    continue
+                flags = dict(want_AB=bool(rng.integers(0, 2)), want_shear=bool(rng.integers(0, 2)), want_ranks=ranks, want_expvel=bool(rng.integers(0, 2)))
+                force_mt = False
+                if mt:
+                    tracers = [('LRG', 'ELG'), ('ELG',), ('QSO',), ('LRG', 'ELG', 'QSO'), ('LRG',)][int(rng.integers(0, 5))]
+                    force_mt = tracers == ('LRG',)
+                else:
+                    tracers = ('LRG',)
+                kinds = ['particle_family_absent', 'tracer_family_absent']
+                if end - start >= 2:
+                    kinds += ['later_halo_file_missing', 'later_particle_file_missing', 'later_halo_file_truncated', 'later_particle_file_truncated']
+                nrej = int(rng.integers(1, 3))
+                first = int(rng.integers(0, len(kinds)))
+                rejected = []
+                for r in range(nrej):
+                    kind = kinds[(first + r * 2) % len(kinds)] if r else ('particle_family_absent' if (g + (chunk != -1)) % 3 == 0 else kinds[first])
+                    slab = int(rng.integers(start + 1, end)) if kind.startswith('later') else start
+                    rejected.append(_rejected_construction(run, AH, t, kind, slab, flags, tracers, force_mt, chunk, nch))
+                desc = dict(case=case, rejected_group=g, nslab=nslab, order=order, halos_per_slab=t['halos_per_slab'], chunk=chunk, n_chunks=nch, tracers=list(tracers), scalar_vdev=False, z_mock=0.5, force_mt=force_mt, log_level='off', files_MT=mt, files_withranks=ranks, **flags)
+                case += 2
+                if g == 0:
+                    run.sample(dict(rejected_calls_before=rejected, **desc))
+                _IDBASE[0] = 0
+                stage_and_check(_LaterObjectRun(run, rejected, 'staging-differs-from-own-files-after-rejected-construction-on-same-directory', 'rejected_constructions_before_on_this_directory'), AH, t, flags, tracers, chunk, nch, desc)
+                run.count('objects_staged_after_a_rejected_construction_on_the_same_directory')
+                src_ids = np.concatenate([s['h']['id'] for s in t['slabs'][start:end]])
+                if any(r['raised'] for r in rejected) and not (np.diff(src_ids) > 0).all():
+                    run.nt(('after-rejected', tuple(r['kind'] for r in rejected if r['raised']), order, nslab, chunk, nch, mt, ranks))
+                if run.too_many():
+                    return
+        finally:
+            shutil.rmtree(t['root'], ignore_errors=True)
 
 
 def replay(run, data):
